@@ -94,22 +94,25 @@ NOT_BUILT_REASON = "check not built yet in this round (planned in DESIGN.md §3;
 PARALLEL = {"C01","C02","C04","C05","C06","C07","C08","C10","C14","C15","C17","C18","C19"}
 BUILD386 = {"C01","C02","C03","C04","C05","C06","C07","C08","C09","C10","C11","C12","C13","C14","C15","C16","C17","C18","C19","C20"}
 EXTRA = {
- "C01": " Call sequences on related keys with inputs in buffers reused in place and interleaved Sign calls; canonical S in [2^252, L) built from small-order keys.",
- "C02": " Wrap-around shift candidates, sibling-derivation histories, one parent object used by 4 goroutines, appends into the spare capacity of returned slices.",
+ "C01": " Call sequences on related keys with inputs in buffers reused in place and interleaved Sign calls; canonical S in [2^252, L) built from small-order keys. Messages of 4 KiB..400 KiB next to multiples of powers of two; undecodable points with the signature that verifies if they are taken for the neutral element.",
+ "C02": " Wrap-around shift candidates, sibling-derivation histories, one parent object used by 4 goroutines, appends into the spare capacity of returned slices. Pluggable curves refusing 15 of 16 candidates (runs of 8..32+ consecutive retries).",
  "C03": " Concurrent class on a freshly selected list.",
- "C04": " Acceptance-set scan over checksum values (all 2^30 in thorough); returned slices re-inspected after later calls.",
- "C06": " Reused dst slices with retained outputs; closing squeezes of originals and clones run concurrently.",
- "C07": " Dense message-length sweep, chunked readers, reused key/message buffers.",
- "C09": " Seed sequences across word-list switches, concurrent class, caller-overwritten UnmarshalText buffers.",
+ "C04": " Acceptance-set scan over checksum values (all 2^30 in thorough); returned slices re-inspected after later calls. A twelfth of the human-readable parts are deployed prefixes (iota, atoi, smr, rms, bc, tb, ...).",
+ "C06": " Reused dst slices with retained outputs; closing squeezes of originals and clones run concurrently. Related input slices (same slice in a run of lanes, adjacent and overlapping windows).",
+ "C07": " Dense message-length sweep, chunked readers, reused key/message buffers. Message lengths next to 2x/3x powers of two up to 400 KiB.",
+ "C09": " Seed sequences across word-list switches, concurrent class, caller-overwritten UnmarshalText buffers. Mostly-ASCII sentences with one variant word at every byte length modulo 64.",
  "C10": " Caller-modified results and reused receivers.",
- "C11": " Shared-Worker and long-lived-Worker (message buffer edited in place) classes.",
- "C12": " Shared-Worker and long-lived-Worker classes; long single-worker mines re-hashed by a bit-sliced 64-lane model.",
+ "C11": " Shared-Worker and long-lived-Worker (message buffer edited in place) classes. Data of 8 KiB..400 KiB next to multiples of powers of two.",
+ "C12": " Shared-Worker and long-lived-Worker classes; long single-worker mines re-hashed by a bit-sliced 64-lane model. Data of 8 KiB..128 KiB next to multiples of powers of two.",
  "C13": " Optional second caller on the same Worker.",
  "C14": " Sequences of up to 5000 groups with late faults.",
- "C15": " Leaf counts up to 2^18 (2^20 thorough), shared Hasher objects, delayed first failing leaf.",
- "C16": " Acceptance-set scan (targeted constants; all 2^30 checksum values in thorough) converted into weight<=4 witnesses; concurrent Decode class.",
- "C17": " Constructed boundary points, t*n+d scalars, argument immutability, reused scalar buffers.",
+ "C15": " Leaf counts up to 2^18 (2^20 thorough), shared Hasher objects, delayed first failing leaf. Leaves that are hash preimages or digests of other parts of the same tree (domain separation).",
+ "C16": " Acceptance-set scan (targeted constants; all 2^30 checksum values in thorough) converted into weight<=4 witnesses; concurrent Decode class. Acceptance-set scan also on deployed prefixes (the accepted checksum values may depend on the prefix); a valid string that Decode rejects is left to C04 and its neighbourhood scanned all the same.",
+ "C17": " Constructed boundary points, t*n+d scalars, argument immutability, reused scalar buffers. The generator's relatives (-G, (beta*Gx, +-Gy)) as operands.",
  "C18": " Dense alpha-length sweep; reuse (one Proof object), related (prefix-sharing alphas) and concurrent classes.",
+ "C05": " Every deployed prefix (iota, atoi, smr, rms, bc, tb, ...) in both cases.",
+ "C08": " Scalars and shifts made of 8..64-bit words that are zero / all ones / one / random.",
+ "C19": " Two-fault migration strings (invalid group plus a checksum matching what a failed decode leaves behind).",
  "C20": " Concurrent class; ptrace single-step trace of every memory access in thorough.",
 }
 
@@ -123,6 +126,8 @@ def main():
             text += EXTRA.get(pid, "")
             if pid in PARALLEL:
                 text += " Cases of a shard are judged on 4 goroutines (shared state inside the library shows up as wrong verdicts)."
+            if pid != "C13":
+                text += " Every second shard process runs with GOMAXPROCS set to 1, 2, 3, 5, 7, 48, 64 or 128."
             if pid in BUILD386:
                 text += " Additionally run as a 32-bit build (GOARCH=386) at reduced volume."
             checks.append({
